@@ -396,6 +396,43 @@ theorem result3_gap_partial (s s' : Vs3 K) (p : V3 K) (hok : Vs3Ok s) (hd : s.di
     simp only [Vs3.result, Vs3.result.go, d, Vs3.get, Vs3.getProj]
     apply C05.v3_ext <;> simp [Vs3.result.go, Vs3.get, Vs3.getProj, V3.add, V3.smul, V3.sub, V3.zero] <;> ring
 
+
+/-! ## the witnesses belong to their own shapes -/
+
+/-- convexity of a planar set, as the property needs it -/
+def Convex2 (A : V2 K → Prop) : Prop :=
+  letI := fieldNum K sq
+  ∀ a b t, A a → A b → 0 ≤ t → t ≤ 1 → A ((a.smul (1 - t)).add (b.smul t))
+
+/-- **each witness belongs to its own shape (2-D)**: if shape 1 and (posed) shape 2 are convex and every live CSO vertex was built
+from a point of shape 1 (`orig1`) and a point of shape 2 (`orig2`) — what `CSOPoint::from_shapes` does with support points —
+then the witnesses reconstructed by `gjk::result` after a reduction that kept a vertex or an edge lie in shape 1 resp. shape 2. -/
+theorem result2_witness_mem (A B : V2 K → Prop) (hA : Convex2 sq A) (hB : Convex2 sq B) (s s' : Vs2 K) (p : V2 K) (hok : Vs2Ok s)
+    (hc : ∀ c, Live2 s c → letI := fieldNum K sq; c.point = c.orig1.sub c.orig2)
+    (h1 : ∀ c, Live2 s c → A c.orig1) (h2 : ∀ c, Live2 s c → B c.orig2) :
+    letI := fieldNum K sq
+    s.projectOriginAndReduce = some (s', p) → s'.dim ≤ 1 → A (s'.result false).1 ∧ B (s'.result false).2 := by
+  letI := fieldNum K sq
+  intro h hd
+  obtain ⟨_, hr⟩ := result2_gap sq s s' p hok hc h hd
+  rcases reduce2_kept sq s s' p hok h with ⟨d, _, _, l0⟩ | ⟨d, w0, w1, hs, _, l0, l1⟩ | ⟨d, _, _⟩
+  · rcases hr with ⟨_, r1, r2⟩ | ⟨d1, _⟩
+    · rw [r1, r2]; exact ⟨h1 _ l0, h2 _ l0⟩
+    · omega
+  · rcases hr with ⟨d0, _⟩ | ⟨_, r1, r2⟩
+    · omega
+    · have e0 : s'.p0 = 1 - s'.p1 := by linarith
+      rw [r1, r2, e0]
+      exact ⟨hA _ _ _ (h1 _ l0) (h1 _ l1) w1 (by linarith), hB _ _ _ (h2 _ l0) (h2 _ l1) w1 (by linarith)⟩
+  · omega
+
+/-- a disc is convex in this sense (non-vacuity of `Convex2`) -/
+example : Convex2 (K := ℚ) (fun x => x) (fun a => a.x * a.x + a.y * a.y ≤ 4) := by
+  intro a b t ha hb h0 h1
+  simp only [V2.add, V2.smul] at *
+  nlinarith [mul_nonneg h0 (sub_nonneg.mpr h1), sq_nonneg (a.x - b.x), sq_nonneg (a.y - b.y), mul_nonneg h0 h0,
+    mul_nonneg (sub_nonneg.mpr h1) (sub_nonneg.mpr h1), sq_nonneg (a.x * b.y - a.y * b.x), sq_nonneg (a.x + b.x), sq_nonneg (a.y + b.y)]
+
 /-! ## the bounds `gjk::closest_points` exits on -/
 
 /-- **lower bound (3-D)**: if `dir` is a unit vector and no point `c` of the configuration-space obstacle `C` goes further than
